@@ -40,6 +40,12 @@ def run_one(pid, tier, repo, replay=None):
         mod.run(chk, ctx)
         return chk.finish()
     except AnalysisError as err:
+        if any(not o.ok for o in chk.obligations):
+            # violations already established stay violations; the part that
+            # could not be analysed is reported as undecided
+            chk.undecide('analysis', 'remaining rules',
+                         '%s: %s' % (type(err).__name__, err))
+            return chk.finish()
         print('ANALYSIS-ERROR property=%s %s: %s' %
               (pid, type(err).__name__, err))
         return 2
